@@ -78,4 +78,14 @@ theorem check_ignores_optional (acc : Acc) (a : Ann) (o : Bool) (t : Tensor) (n 
   rw [checkLiterals_ignores_optional]
   rfl
 
+/-- **None in place of a whole tuple whose hint carries annotations is never accepted**: `zip(annotations, None)` is a TypeError, for a
+    parameter, a field and a return value alike (the hint `tuple[A, B]` has no `| None`; `from_hint` does not make the tuple itself
+    optional under `Optional[tuple[...]]` either) -/
+theorem none_for_tuple_hint_refused (name : Name) (anns : List (Option Ann)) (h : anns.all Option.isNone = false) :
+    addHinted name .none ⟨true, anns⟩ = .pyExc .typeError ∧ addReturn true anns .none = .pyExc .typeError := by
+  constructor
+  · unfold addHinted resolveTypes
+    simp [h]
+  · rfl
+
 end Dltype.C10
